@@ -14,6 +14,7 @@ from vlib.core import Res
 PROP = "C01"
 SHARDS = {"quick": 16, "thorough": 16}
 TIME_LIMIT = {"quick": 2400, "thorough": 8 * 3600}
+CASE_TIMEOUT_S = 300   # a case that takes longer is inconclusive (counted as ambiguous), never a violation
 RULE = ("Hypothesis: header = projection in {SIN,TAN,ZEA,ARC,STG}, CRVAL1 in {0.0005, 359.9995, uniform}, |CRVAL2| <= 85 "
         "(weighted to > 70), pixel scale 1..60 arcsec, image 64..160 px (rows != cols), CRPIX on or off the image with every "
         "pixel within 1.4 deg of the reference point, beam BMIN 4..8 px, BMAJ/BMIN 1..2, any BPA; source defined on the sky: "
@@ -48,11 +49,14 @@ source_st = st.fixed_dictionaries({
     "int_a": f(0, 1.5), "int_ratio": f(0.3, 1.0), "int_pa": f(-90, 90),
     "snr": st.one_of(f(20, 500), f(50, 200)),
     "negative": st.sampled_from([False, False, False, True]),
+    # special sub-pixel positions: exactly on a pixel centre, half-way between two pixels, on a pixel corner
+    "snap": st.sampled_from(["none", "none", "none", "centre", "half-x", "half-y", "corner"]),
 })
 
 nf_case = st.fixed_dictionaries({
     "hdr": header_st, "src": source_st,
     "docov": st.sampled_from([True, False]), "bkg": st.sampled_from([None, None, 0.0, 3.5, -20.0]),
+    "bitpix": st.sampled_from([-64, -64, -32]),
 })
 
 noisy_case = st.fixed_dictionaries({
@@ -105,6 +109,10 @@ def build(c, white_clause=False):
         return None
     px = 1 + margin + sc["fx"] * (cols - 2 * margin - 1)     # FITS axis1 (column) coordinate
     py = 1 + margin + sc["fy"] * (rows - 2 * margin - 1)
+    snap = sc.get("snap", "none")
+    if snap != "none":
+        px = math.floor(px) + (0.5 if snap in ("half-x", "corner") else 0.0)
+        py = math.floor(py) + (0.5 if snap in ("half-y", "corner") else 0.0)
     ra, dec = (float(v) for v in w.pix2sky(px, py))
     amp = -1.0 if sc["negative"] else 1.0
     src = {"ra": ra, "dec": dec, "peak": amp, "a": a, "b": b, "pa": pa}
@@ -160,7 +168,8 @@ def check_noise_free(c):
     d = tempfile.mkdtemp(prefix="c01_")
     try:
         path = os.path.join(d, "im.fits")
-        skyimg.write_fits(path, img + (bkg or 0.0), B["hdr"])
+        single = c.get("bitpix", -64) == -32
+        skyimg.write_fits(path, img + (bkg or 0.0), B["hdr"], dtype=np.float32 if single else np.float64)
         comps = run_finder(path, B["rms"], bkg if bkg is not None else None, c["docov"])
     finally:
         shutil.rmtree(d, ignore_errors=True)
@@ -196,6 +205,10 @@ def check_noise_free(c):
     res.nontrivial = True
     res.key = stratum(c, B)
     res.label("proj-" + c["hdr"]["proj"], "docov" if c["docov"] else "nocov")
+    if c.get("bitpix", -64) == -32:
+        res.label("bitpix-32")
+    if c["src"].get("snap", "none") != "none":
+        res.label("snap-" + c["src"]["snap"])
     if abs(c["hdr"]["crval2"]) > 70:
         res.label("high-dec")
     if src["peak"] < 0:
